@@ -11,7 +11,7 @@ for f in ('patch.diff', 'demo.py', 'meta.json'):
     shutil.copy(os.path.join(seed, f), os.path.join(dst, f))
 def sh(cmd, **k):
     return subprocess.run(cmd, shell=True, capture_output=True, text=True, **k)
-env = dict(os.environ, PYTHONPATH=os.path.join(wt, 'src'))
+env = dict(os.environ, PYTHONPATH=os.path.join(wt, 'src'), NUMBA_NUM_THREADS='4')
 # demo with the change (worktree has it applied)
 r_with = sh('/venv/bin/python %s/demo.py' % dst, env=env, cwd='/tmp', timeout=1800)
 sh('git -C %s stash -q' % wt)
